@@ -1597,3 +1597,280 @@ der_break(int cls, const unsigned char *der, size_t dl, unsigned char *out, int 
 	return l;
 }
 
+/* value-level mutations of a valid (r, s, hash, Q).  Fills r2, s2, hv2/hl2, q2;
+ * returns class name */
+#define N_VALMUT 22
+static const char *
+value_mutation(curve_t *c, int cls, const BIGNUM *r, const BIGNUM *s, BIGNUM *r2, BIGNUM *s2,
+	const unsigned char *hv, size_t hl, unsigned char *hv2, size_t *hl2,
+	const unsigned char *q, unsigned char *q2)
+{
+	const char *name = "?";
+	unsigned char tmp[80];
+	BN_copy(r2, r); BN_copy(s2, s);
+	memcpy(hv2, hv, hl); *hl2 = hl;
+	memcpy(q2, q, c->ptlen);
+	switch (cls) {
+	case 0: name = "r=0"; BN_zero(r2); break;
+	case 1: name = "s=0"; BN_zero(s2); break;
+	case 2: name = "r=n"; BN_copy(r2, c->n); break;
+	case 3: name = "s=n"; BN_copy(s2, c->n); break;
+	case 4: name = "r+n"; BN_add(r2, r, c->n); break;
+	case 5: name = "s+n"; BN_add(s2, s, c->n); break;
+	case 6: name = "s=n-s"; BN_sub(s2, c->n, s); break;
+	case 7: name = "r-random"; rand_scalar(r2, c); break;
+	case 8: name = "s-random"; rand_scalar(s2, c); break;
+	case 9: name = "r-bitflip"; { int b = (int)vf_below(&rng, (uint32_t)c->nbits); if (BN_is_bit_set(r2, b)) BN_clear_bit(r2, b); else BN_set_bit(r2, b); } break;
+	case 10: name = "s-bitflip"; { int b = (int)vf_below(&rng, (uint32_t)c->nbits); if (BN_is_bit_set(s2, b)) BN_clear_bit(s2, b); else BN_set_bit(s2, b); } break;
+	case 11: name = "hash-bitflip";
+		if (hl == 0) { hv2[0] = 1; *hl2 = 1; }
+		else { uint32_t b = vf_below(&rng, (uint32_t)(8 * hl)); hv2[b >> 3] ^= (unsigned char)(0x80u >> (b & 7)); }
+		break;
+	case 12: name = "hash-truncated";
+		if (hl == 0) { name = "hash-extended"; vf_bytes(&rng, hv2, 3); *hl2 = 3; }
+		else *hl2 = hl - 1 - vf_below(&rng, (uint32_t)(hl > 4 ? 4 : hl));
+		break;
+	case 13: name = "hash-extended"; { size_t e = 1 + vf_below(&rng, 8); vf_bytes(&rng, hv2 + hl, e); *hl2 = hl + e; } break;
+	case 14: name = "r=n-r"; BN_sub(r2, c->n, r); break;
+	case 15: name = "other-pubkey"; { EC_POINT *W; rand_point(c, q2, &W); EC_POINT_free(W); } break;
+	case 16: name = "r-s-swapped"; BN_copy(r2, s); BN_copy(s2, r); break;
+	case 17: name = "r=n+1"; BN_copy(r2, c->n); BN_add_word(r2, 1); break;
+	case 18: name = "s=n+1"; BN_copy(s2, c->n); BN_add_word(s2, 1); break;
+	case 19: name = "hash-other-length"; *hl2 = vf_below(&rng, 81); vf_bytes(&rng, hv2, *hl2); break;
+	case 20: name = "r=s=1"; BN_one(r2); BN_one(s2); break;
+	default: name = "s-huge"; vf_bytes(&rng, tmp, c->nlen); tmp[0] |= 0x80; BN_bin2bn(tmp, (int)c->nlen, s2);
+		if (c->id == BR_EC_secp521r1) { name = "s-huge-521"; } break;
+	}
+	return name;
+}
+
+/* RFC 6979 A.2.5 (P-256, SHA-256, message "sample"): a fixed point that does
+ * not depend on the reference generator written here */
+static void
+ecdsa_kat(ecdsa_env *E)
+{
+	static const char *xh = "C9AFA9D845BA75166B5C215767B1D6934E50C3DB36E89B127B8A622B120F6721";
+	static const char *rh = "EFD48B2AACB6A8FD1140DD9CD45E81D69D2C877B56AAF991C34D0EA84EAF3716";
+	static const char *sh = "F7CB1C942D657C41D436C7A1B6E29F65F3E900DBB9AFF4064DC4AB2F843ACDA8";
+	unsigned char x[32], want[64], hv[32], sig[80];
+	br_sha256_context sc;
+	int i, e;
+	if (E->c->id != BR_EC_secp256r1) return;
+	vf_unhex(x, 32, xh); vf_unhex(want, 32, rh); vf_unhex(want + 32, 32, sh);
+	br_sha256_init(&sc); br_sha256_update(&sc, "sample", 6); br_sha256_out(&sc, hv);
+	{
+		/* the reference generator must reproduce the RFC's own vector */
+		BIGNUM *d = BN_new(), *k = BN_new(), *r = BN_new(), *s = BN_new();
+		unsigned char rs[64];
+		BN_bin2bn(x, 32, d);
+		ref_rfc6979_k(k, E->c, d, 2, hv);
+		HASSERT(ref_sign_k(E->c, r, s, d, k, hv, 32), "kat-refsign");
+		enc_raw(rs, r, s, 32);
+		HASSERT(memcmp(rs, want, 64) == 0, "rfc6979-vector-vs-reference");
+		BN_free(d); BN_free(k); BN_free(r); BN_free(s);
+	}
+	for (i = 0; i < E->nsup; i ++) for (e = 0; e < 4; e += 2) {
+		size_t sl = call_sign(E->sup[i], &ecdsas[e], 2, hv, BR_EC_secp256r1, x, 32, sig, 64);
+		vf_stat("cmp_kat", 1);
+		if (sl != 64 || memcmp(sig, want, 64) != 0) {
+			vf_viol(mkkey2("kat-rfc6979", E->sup[i], &ecdsas[e], "P256"), "RFC 6979 A.2.5 vector not reproduced", "got=%s", vf_hexs(sig, 64));
+		}
+	}
+}
+
+static void
+ecdsa_case(ecdsa_env *E, long long idx, int nverify, int nmut)
+{
+	curve_t *c = E->c;
+	int ncombo = E->nsup * 4;
+	const impl_t *sim = E->sup[(idx % ncombo) / 4];
+	const ecdsa_t *sev = &ecdsas[idx % 4];
+	BIGNUM *d = BN_new(), *k = BN_new(), *r = BN_new(), *s = BN_new(), *r2 = BN_new(), *s2 = BN_new();
+	EC_POINT *Q = EC_POINT_new(c->g), *Q2;
+	unsigned char qb[140], q2[140], xb[96], hv[160], hv2[160], sig[160], want[160];
+	size_t xl, hl, hl2, sl, wl;
+	int h, j, ok;
+	uint32_t v;
+	const char *hcls = "random";
+
+	/* private key */
+	v = vf_below(&rng, 40);
+	if (v == 0) BN_one(d);
+	else if (v == 1) { BN_copy(d, c->n); BN_sub_word(d, 1); }
+	else if (v == 2) BN_set_word(d, 2);
+	else rand_scalar(d, c);
+	HASSERT(EC_POINT_mul(c->g, Q, d, NULL, NULL, bctx) == 1, "dG");
+	pt_encode(c, Q, qb);
+	v = vf_below(&rng, 10);
+	xl = enc_scalar(xb, d, c, v < 7 ? 0 : v == 7 ? 1 : v == 8 ? 2 : 3);
+
+	/* hash */
+	h = (int)vf_below(&rng, NHASH);
+	hl = hlen_of[h];
+	vf_bytes(&rng, hv, hl);
+	v = vf_below(&rng, 24);
+	if (v == 0) { memset(hv, 0, hl); hcls = "zero"; }
+	else if (v == 1) { memset(hv, 0xFF, hl); hcls = "ones"; }
+	else if (v == 2 && 8 * hl >= (size_t)c->nbits) {
+		/* leftmost qlen bits equal n: e = 0 mod n */
+		BN_lshift(r2, c->n, (int)(8 * hl) - c->nbits);
+		BN_bn2binpad(r2, hv, (int)hl);
+		hcls = "e=n";
+	} else if (v == 3) { memset(hv, 0, hl); hv[hl - 1] = 1; hcls = "one"; }
+
+	/* ---- sign with the library, compare with RFC 6979 */
+	ref_rfc6979_k(k, c, d, h, hv);
+	ok = ref_sign_k(c, r, s, d, k, hv, hl);
+	HASSERT(ok, "ref-sign-degenerate");
+	HASSERT(ref_verify(c, Q, hv, hl, r, s), "ref-signature-does-not-verify");
+	sl = call_sign(sim, sev, h, hv, c->id, xb, xl, sig, sev->asn1 ? c->max_asn1 : c->max_raw);
+	if (sev->asn1) wl = ref_der(want, sizeof want, r, s); else wl = enc_raw(want, r, s, c->nlen);
+	vf_stat("signatures", 1);
+	vf_stat("cmp_sign", 1);
+	vf_distinct("ecdsa_cfg", "sign %s %s %s %s hash-%s", sev->name, sim->name, c->name, hname[h], hcls);
+	if (sl != wl || memcmp(sig, want, wl) != 0) {
+		vf_viol(mkkey2("sign-rfc6979", sim, sev, c->name), "signature differs from the RFC 6979 deterministic value",
+			"seed=%lld i=%lld hash=%s x=%s hv=%s len=%zu got=%s want=%s", g_seed, idx, hname[h],
+			vf_hexs(xb, xl), vf_hexs(hv, hl), sl, vf_hexs(sig, sl < 160 ? sl : 160), vf_hexs(want, wl));
+	}
+	vf_sample("{\"op\":\"sign\",\"signer\":\"%s\",\"impl\":\"%s\",\"curve\":\"%s\",\"hash\":\"%s\",\"x\":\"%s\",\"hv\":\"%s\",\"sig\":\"%s\"}",
+		sev->name, sim->name, c->name, hname[h], vf_hexs(xb, xl), vf_hexs(hv, hl), vf_hexs(sig, sl < 160 ? sl : 160));
+
+	/* ---- the valid signature verifies with the implementations here */
+	for (j = 0; j < nverify; j ++) {
+		const impl_t *im; const ecdsa_t *ev;
+		next_verifier(E, &im, &ev, -1);
+		judge_values(E, im, ev, qb, c->ptlen, hv, hl, r, s, 1, (int)vf_below(&rng, 3), hcls[0] == 'r' ? "valid" : hcls, idx);
+	}
+
+	/* ---- a signature over a hash of arbitrary length (reference signer, random nonce) */
+	{
+		hl2 = (size_t)((idx * 7 + g_seed) % 73);
+		vf_bytes(&rng, hv2, hl2);
+		rand_scalar(k, c);
+		if (ref_sign_k(c, r2, s2, d, k, hv2, hl2)) {
+			const impl_t *im; const ecdsa_t *ev;
+			HASSERT(ref_verify(c, Q, hv2, hl2, r2, s2), "ref-signature2-does-not-verify");
+			next_verifier(E, &im, &ev, -1);
+			judge_values(E, im, ev, qb, c->ptlen, hv2, hl2, r2, s2, 1, 0, "valid-anyhashlen", idx);
+		}
+	}
+
+	/* ---- mutated signatures */
+	for (j = 0; j < nmut; j ++) {
+		const impl_t *im; const ecdsa_t *ev;
+		uint32_t w = vf_below(&rng, 100);
+		if (w < 62) {
+			int cls = (int)vf_below(&rng, N_VALMUT);
+			const char *name = value_mutation(c, cls, r, s, r2, s2, hv, hl, hv2, &hl2, qb, q2);
+			int want;
+			Q2 = pt_decode(c, q2, c->ptlen);
+			HASSERT(Q2 != NULL, "mut-q2");
+			want = ref_verify(c, Q2, hv2, hl2, r2, s2);
+			EC_POINT_free(Q2);
+			next_verifier(E, &im, &ev, -1);
+			judge_values(E, im, ev, q2, c->ptlen, hv2, hl2, r2, s2, want, (int)vf_below(&rng, 3), name, idx);
+		} else if (w < 70) {
+			/* raw: odd length, empty */
+			unsigned char bad[300];
+			size_t bl = enc_raw(bad, r, s, c->nlen);
+			const char *name;
+			uint32_t t = vf_below(&rng, 4);
+			if (t == 0) { bl --; name = "raw-odd-short"; }
+			else if (t == 1) { memmove(bad + 1, bad, bl); bad[0] = 0; bl ++; name = "raw-odd-long"; }
+			else if (t == 2) { bl = 0; name = "raw-empty"; }
+			else { bl = 1; name = "raw-1byte"; }
+			next_verifier(E, &im, &ev, 0);
+			judge_must_reject(E, im, ev, qb, c->ptlen, hv, hl, bad, bl, name, idx);
+		} else if (w < 86) {
+			/* ASN.1 structure */
+			unsigned char der[200], bad[260];
+			size_t dl, bl;
+			int kind, usemut = (int)(vf_u32(&rng) & 1), want = 1;
+			const char *name = "?";
+			BN_copy(r2, r); BN_copy(s2, s);
+			if (usemut) {
+				if (vf_u32(&rng) & 1) rand_scalar(r2, c); else rand_scalar(s2, c);
+				want = ref_verify(c, Q, hv, hl, r2, s2);
+			}
+			dl = ref_der(der, sizeof der, r2, s2);
+			bl = der_break((int)vf_below(&rng, N_DERBREAK), der, dl, bad, &kind, &name);
+			next_verifier(E, &im, &ev, 1);
+			if (kind == 0) {
+				judge_must_reject(E, im, ev, qb, c->ptlen, hv, hl, bad, bl, name, idx);
+			} else if (kind == 1) {
+				uint32_t got = call_vrfy(im, ev, hv, hl, c->id, qb, c->ptlen, bad, bl);
+				vf_distinct("ecdsa_cfg", "vrfy %s %s %s %s lenient", ev->name, im->name, c->name, name);
+				if (got == 1) vf_distinct("lenient_der_accepted", "%s", name);
+				if (!want) {
+					vf_stat("cmp_vrfy_reject", 1);
+					if (got != 0) {
+						vf_viol(mkkey2("vrfy-invalid-accepted", im, ev, c->name), "verifier accepted a signature that OpenSSL rejects (lenient DER form)",
+							"seed=%lld i=%lld cls=%s Q=%s hash=%s sig=%s", g_seed, idx, name, vf_hexs(qb, c->ptlen), vf_hexs(hv, hl), vf_hexs(bad, bl));
+					}
+				} else {
+					vf_stat("unjudged_lenient_der_valid", 1);
+				}
+			}
+		} else if (w < 96) {
+			/* invalid public key with a valid signature */
+			unsigned char bad[300], sg[200];
+			const char *name = "?";
+			size_t bl = make_invalid(c, (int)vf_below(&rng, N_INVALID), qb, bad, &name), sgl;
+			if (bl == (size_t)-1) continue;
+			next_verifier(E, &im, &ev, -1);
+			sgl = ev->asn1 ? ref_der(sg, sizeof sg, r, s) : enc_raw(sg, r, s, c->nlen);
+			vf_stat("cmp_invalid_point", 1);
+			judge_must_reject(E, im, ev, bad, bl, hv, hl, sg, sgl, name, idx);
+		} else {
+			/* implementation that does not support the curve: documented to return 0 */
+			unsigned char sg[200];
+			size_t sgl;
+			uint32_t got;
+			if (E->nunsup == 0) continue;
+			im = E->unsup[vf_below(&rng, (uint32_t)E->nunsup)];
+			ev = &ecdsas[vf_below(&rng, 4)];
+			sgl = ev->asn1 ? ref_der(sg, sizeof sg, r, s) : enc_raw(sg, r, s, c->nlen);
+			got = call_vrfy(im, ev, hv, hl, c->id, qb, c->ptlen, sg, sgl);
+			vf_stat("cmp_unsupported_curve", 2);
+			if (got != 0) vf_viol(mkkey2("vrfy-unsupported-curve", im, ev, c->name), "verifier did not return 0 for an unsupported curve", "ret=%u", got);
+			sgl = call_sign(im, ev, h, hv, c->id, xb, xl, sg, ev->asn1 ? c->max_asn1 : c->max_raw);
+			if (sgl != 0) vf_viol(mkkey2("sign-unsupported-curve", im, ev, c->name), "signer did not return 0 for an unsupported curve", "ret=%zu", sgl);
+		}
+	}
+
+	/* ---- out-of-range private keys: executed, the outcome is not documented */
+	if ((idx % 16) == 5) {
+		unsigned char zx[80];
+		size_t zl = c->nlen, got;
+		if (idx & 16) { memset(zx, 0, zl); } else { BN_bn2binpad(c->n, zx, (int)zl); if (idx & 32) zx[zl - 1] ++; }
+		got = call_sign(sim, sev, h, hv, c->id, zx, zl, sig, sev->asn1 ? c->max_asn1 : c->max_raw);
+		vf_stat("unjudged_sign_bad_private_key", 1);
+		vf_distinct("unjudged_cfg", "sign bad-private-key ret%s", got ? "!=0" : "=0");
+	}
+	BN_free(d); BN_free(k); BN_free(r); BN_free(s); BN_free(r2); BN_free(s2);
+	EC_POINT_free(Q);
+}
+
+static void
+run_ecdsa(curve_t *c, long long cases, int nverify, int nmut)
+{
+	ecdsa_env E;
+	long long i;
+	int j;
+	memset(&E, 0, sizeof E);
+	E.c = c;
+	for (j = 0; j < nimpl; j ++) {
+		if (impl_supports(impls[j].impl, c->id)) E.sup[E.nsup ++] = &impls[j];
+		else E.unsup[E.nunsup ++] = &impls[j];
+	}
+	if (g_worker == 0) ecdsa_kat(&E);
+	for (i = 0; i < cases; i ++) {
+		if ((i % g_nworkers) != g_worker) continue;
+		rng_case("ecdsa", c->name, "", i);
+		E.vr = i * 5;
+		vf_stat("cases", 1);
+		ecdsa_case(&E, i, nverify, nmut);
+	}
+}
+
